@@ -377,7 +377,9 @@ fn dates_differ_by_known_rounding(a: Option<&dcbor::Date>, b: Option<&dcbor::Dat
     match (a, b) {
         (Some(x), Some(y)) => {
             let (tx, ty) = (x.timestamp(), y.timestamp());
-            tx != ty && tx.fract() != 0.0 && (tx - ty).abs() <= 2.0e-9 * tx.abs().max(1.0) && (tx - ty).abs() < 1.0e-6
+            // (the two Date values differ - that is why we are here - by at most about a nanosecond; their f64
+            // timestamps may even print the same)
+            tx.fract() != 0.0 && (tx - ty).abs() <= 2.0e-9 * tx.abs().max(1.0) && (tx - ty).abs() < 1.0e-6
         }
         _ => false,
     }
@@ -533,6 +535,45 @@ pub fn run_expr(scn: &Scenario, ctx: &mut Ctx) {
                 }
                 ctx.t("X.Request");
             }
+            "X.Dates" => {
+                // many dates from the simulated clock through one request each: integral, fractional, negative
+                let mut r = SimRng::new(st.arg(2));
+                for k in 0..200u64 {
+                    let t = match k % 4 {
+                        0 => (clock + r.below(4_000_000_000)) as f64,
+                        1 => (clock + r.below(4_000_000_000)) as f64 + (r.below(1_000_000) as f64) / 1_000_000.0,
+                        2 => -((clock + r.below(2_000_000_000)) as f64) - (r.below(1_000_000) as f64) / 1_000_000.0,
+                        _ => (r.below(100_000_000) as f64) + (r.below(1_000_000_000) as f64) / 1_000_000_000.0,
+                    };
+                    let dt = dcbor::Date::from_timestamp(t);
+                    let rq = Request::new(f.clone(), arid(st.arg(2) ^ k)).with_date(&dt);
+                    let env: Envelope = rq.clone().into();
+                    let rx = match transmit(ctx, &env) {
+                        Some(x) => x,
+                        None => continue,
+                    };
+                    ctx.checked();
+                    match guarded(|| Request::try_from(rx.clone())) {
+                        Ok(Ok(p)) => {
+                            if p != rq {
+                                let only_date = p.body() == rq.body() && p.id() == rq.id() && p.note() == rq.note();
+                                if only_date && dates_differ_by_known_rounding(rq.date(), p.date()) {
+                                    ctx.violate_sig("C18.roundtrip", format!("request date {:?} came back as {:?}", rq.date().map(|d| d.timestamp()), p.date().map(|d| d.timestamp())), "dcbor-date-fraction".to_string());
+                                } else {
+                                    ctx.violate("C18.roundtrip", format!("parsed Request differs from the original (date {:?} vs {:?})", p.date().map(|d| d.timestamp()), rq.date().map(|d| d.timestamp())));
+                                }
+                            }
+                        }
+                        Ok(Err(er)) => ctx.violate("C18.roundtrip", format!("Request with date {} does not parse back: {}", t, er)),
+                        Err(pn) => ctx.violate_sig("C16.no-panic", format!("Request::try_from panicked: {}", pn), pn),
+                    }
+                    if ctx.failed() {
+                        break;
+                    }
+                }
+                ctx.probe("date-sweep");
+                ctx.t("X.Dates");
+            }
             "X.Response" => {
                 let id = arid(st.arg(2));
                 let kind = st.arg(3) % 4;
@@ -659,7 +700,7 @@ pub fn generate_expr(property: &str, r: &mut SimRng, seed: u64) -> Scenario {
     scn.steps.truncate(keep.max(2));
     let n = r.range(1, 5);
     for _ in 0..n {
-        let op = *r.pick(&["X.Expression", "X.Request", "X.Request", "X.Response", "X.Response", "X.Event"]);
+        let op = *r.pick(&["X.Expression", "X.Request", "X.Request", "X.Response", "X.Response", "X.Event", "X.Dates"]);
         scn.push(op, &[ds(r), r.below(600), r.below(10000), r.below(60), r.below(5000), r.below(100000)]);
     }
     scn
